@@ -263,6 +263,11 @@ def run_property(pid, tier, rules_fn, explanation, not_decided, trusted_base=(),
             sr.violations.append(Violation(pid + ".selftest", "empty", "no fixture was evaluated"))
         if sr.violations:
             rules.append(sr)
+    # thorough: checker self-validation against the mutant corpus of this property and the benign refactorings (E4).
+    # It is a statement about the checker, not about the tree: recorded in the evidence, never a VIOLATION.
+    detector = None
+    if tier == "thorough" and not os.environ.get("VERIF_NO_SELFTEST"):
+        detector = run_detector_selftest(pid)
     known = load_known()
     known_keys = {k["key"]: k for k in known.get("known", []) if k.get("property") == pid}
     violations = []
@@ -304,6 +309,7 @@ def run_property(pid, tier, rules_fn, explanation, not_decided, trusted_base=(),
         "not_decided": list(not_decided),
         "known_findings_matched": [v.full_key() for v, _ in known_hits],
         "selftest": ctx.selftest,
+        "detector_selftest": detector,
     }
     ev = {
         "property_id": pid,
@@ -336,6 +342,35 @@ def run_property(pid, tier, rules_fn, explanation, not_decided, trusted_base=(),
         return 1
     print("OK property=%s obligations=%d discharged=%d (%.1fs)" % (pid, obligations, discharged, time.time() - t0))
     return 0
+
+
+def run_detector_selftest(pid):
+    import subprocess
+    import tempfile
+    fd, path = tempfile.mkstemp(prefix="discv5-selftest-", suffix=".json")
+    os.close(fd)
+    try:
+        jobs = str(max(2, min(10, (os.cpu_count() or 4) - 4)))
+        p = subprocess.run([sys.executable, os.path.join(VERIF, "tools", "run_mutants.py"), "--as-prop", pid, "--jobs", jobs, "--json", path],
+                           stdout=subprocess.PIPE, stderr=subprocess.STDOUT, text=True)
+        try:
+            with open(path) as f:
+                res = json.load(f)
+        except Exception:
+            return {"error": "mutant runner produced no table", "tail": p.stdout[-400:]}
+    finally:
+        if os.path.exists(path):
+            os.remove(path)
+    muts = [r for r in res if r.get("expect") != "none"]
+    ben = [r for r in res if r.get("expect") == "none"]
+    return {
+        "what": "each patch of mutants/ for this property is applied to a scratch copy of the current tree (outside /repo and /verif, removed afterwards), "
+                "facts are re-exported and this property's quick check must report the expected rule; each benign refactoring must leave it silent",
+        "mutants": len(muts), "caught": sum(r["status"] == "caught" for r in muts), "caught_by_other_rule": sum(r["status"] == "caught-by-other-rule" for r in muts),
+        "missed": [r["mutant"] for r in muts if r["status"] == "MISSED"], "skipped": [r["mutant"] for r in muts if r["status"].startswith("skipped")],
+        "benign": len(ben), "benign_silent": sum(r["status"] == "silent" for r in ben), "false_alarms": [r["mutant"] for r in ben if r["status"] == "FALSE-ALARM"],
+        "table": [{"mutant": r["mutant"], "rule": r.get("rule"), "status": r["status"], "keys": r.get("keys", [])[:3]} for r in res],
+    }
 
 
 class Ctx:
